@@ -21,3 +21,20 @@ Definition sm_on_new_http_sub (d : sa_result) : gate_out :=
   | SaOk => mk_gate_out 0 1 true true true
   | r => mk_gate_out (sa_code r) 0 false false false
   end.
+
+(* which direction and protocol string each ServerManager callback presents to the
+   authentication callback (base.Session2PubStartInfo / Session2SubStartInfo of the
+   session it is given): 0 OnNewRtmpPubSession, 1 OnNewRtmpSubSession,
+   2 OnNewHttpflvSubSession, 3 OnNewHttptsSubSession, 4 OnNewRtspPubSession,
+   5 OnNewRtspSubSessionDescribe *)
+Definition callback_dir (cb : N) : N :=
+  match cb with 0 => 0 | 4 => 0 | _ => 1 end.
+Definition callback_proto (cb : N) : bytes :=
+  match cb with
+  | 0 => proto_rtmp | 1 => proto_rtmp | 2 => proto_flv | 3 => proto_ts | _ => proto_rtsp
+  end.
+
+(* the callback's outcome: error code, and whether the session ends up attached to its
+   group (listed by the stat API) *)
+Definition sm_callback (cb : N) (d : sa_result) : N * bool :=
+  match d with SaOk => (0, true) | r => (sa_code r, false) end.
